@@ -1674,6 +1674,10 @@ func (c *DnsController) __updateDnsCacheDeadline(cacheKey string, host string, d
 		}
 	}
 
+	// Being inserted is a use: without this a brand-new entry that has not been looked up
+	// yet is the first victim of LRU eviction, before entries that were last used long ago.
+	newCache.lastAccessNano.Store(now.UnixNano())
+
 	// Store atomically - concurrent writes don't block each other
 	newCache.RouteOwnerKey = cacheKey
 	c.dnsCache.Store(cacheKey, newCache)
